@@ -6,6 +6,7 @@ use std::io::{BufRead, Write};
 mod cubic;
 mod pure;
 mod rx;
+mod sock;
 mod segs;
 mod mtu;
 mod txring;
@@ -21,6 +22,7 @@ pub struct St {
     pub segs: segs::SegSt,
     pub vs: vsock::Vs,
     pub cubic: cubic::CubicSt,
+    pub sock: sock::SockSt,
 }
 
 fn step(st: &mut St, line: &str) -> String {
@@ -35,6 +37,7 @@ fn step(st: &mut St, line: &str) -> String {
         Some((&"seg", args)) => segs::step_segs(&mut st.segs, args),
         Some((&"vs", args)) => vsock::step_vs(&mut st.vs, args),
         Some((&"cubic", args)) => cubic::step_cubic(&mut st.cubic, args),
+        Some((&"sock", args)) => sock::step_sock(&mut st.sock, args),
         Some((&"rtte", args)) => pure::step_rtte(&mut st.rtte, args),
         _ => "bad-op".into(),
     }
@@ -56,6 +59,7 @@ fn main() {
         segs: segs::SegSt::new(0),
         vs: vsock::Vs::new(),
         cubic: cubic::CubicSt::new(),
+        sock: sock::SockSt::new(),
     };
     for line in stdin.lock().lines() {
         let line = line.unwrap();
@@ -73,7 +77,10 @@ fn main() {
                     .cloned()
                     .or_else(|| e.downcast_ref::<&str>().map(|s| s.to_string()))
                     .unwrap_or_default();
-                writeln!(out, "PANIC {}", msg.replace('\n', " ")).unwrap()
+                writeln!(out, "PANIC {}", msg.replace('\n', " ")).unwrap();
+                if interactive {
+                    out.flush().unwrap();
+                }
             }
         }
     }
